@@ -13,6 +13,7 @@ import Ajson.Proofs.Acyclic
 import Ajson.Proofs.Views
 import Ajson.Proofs.CloneSound
 import Ajson.Proofs.Steps
+import Ajson.Proofs.UnpackCanon
 
 namespace Ajson.Props.C06
 open Ajson Ajson.Heap
@@ -214,5 +215,26 @@ theorem C06_object_views_agree {h : Heap} (hs : Proofs.Struct h) (n : Nat) (hn :
   unfold Heap.inheritors
   have h1 : h.isObject n = true := by simp [isObject, typeOf, hobj]
   simp only [h1, if_true]
+
+/-- **`Unpack` describes the same children**: on a sound heap `Unpack` answers exactly `absSorted` (Proofs/UnpackValue), and `absSorted`
+of an array is the list of `absSorted` of the nodes `Inheritors()`/`GetIndex(0..)` name (`arrayIds`, `C06_array_views_agree`), in that
+order; of an object, the members `GetKey` finds, each under its key, in the key order `Inheritors()` lists them
+(`C06_object_views_agree`). No assumption on earlier reads, none on how the heap came about beyond `Struct`. -/
+theorem C06_unpack_describes_the_same_children {h : Heap} (hs : Proofs.Struct h) (fuel : Nat) (n : Nat) (hn : n < h.size) :
+    (∀ v, (h.unpack (fuel + 1) n).2 = .ok v ↔ Proofs.absSorted (fuel + 1) h n = some v) ∧
+    (∀ c ∈ (h.childMap n).vals, ∀ w, (h.unpack fuel c).2 = .ok w ↔ Proofs.absSorted fuel h c = some w) ∧
+    ((h.get n).type = .array → Proofs.absSorted (fuel + 1) h n =
+      ((Proofs.arrayIds (h.childMap n)).mapM (fun c => Proofs.absSorted fuel h c)).map JVal.arr) ∧
+    ((h.get n).type = .object → Proofs.absSorted (fuel + 1) h n =
+      ((sortByKey (h.childMap n)).mapM (fun p => (Proofs.absSorted fuel h p.2).map (fun v => (p.1, v)))).map JVal.obj) := by
+  refine ⟨fun v => Proofs.unpack_iff_absSorted (fuel + 1) h n v hs hn, fun c hc w => ?_, fun ht => ?_, fun ht => ?_⟩
+  · obtain ⟨kc, hkc, rfl⟩ := List.mem_map.mp hc
+    exact Proofs.unpack_iff_absSorted fuel h kc.2 w hs ((hs n hn).kids kc hkc).1
+  · conv => lhs; unfold Proofs.absSorted
+    have : h.typeOf n = .array := ht
+    simp only [this]
+  · conv => lhs; unfold Proofs.absSorted
+    have : h.typeOf n = .object := ht
+    simp only [this]
 
 end Ajson.Props.C06
